@@ -10,10 +10,18 @@ package snapshot
 //                      use verifies every data file, the verdict - good or bad - is kept, a bad one
 //                      is returned (or ends the process) and nothing is handed out; the header of a
 //                      stream carries the recorded checksums
-//   VerifC12Order      (symbolic run only) the same scenarios; the models of the file system record
-//                      events: every data file is checksummed before the first one is opened for
-//                      streaming, and nothing is opened after a bad verdict
-//   VerifC12Reap       a reap on a fresh / verified / condemned store
+//   VerifC12Reap       a reap on a fresh / verified / condemned store, started through each of its
+//                      entry points: the public Store.Reap, or the reaper goroutine (reapLoop, run in
+//                      the engine's scheduler) woken through the reap channel - by the real Close of a
+//                      sink that publishes one more incremental snapshot, or by the bare token; also a
+//                      reap that finds the plan of an interrupted one (finishes it, is not a verdict)
+//   VerifC12Start      the store built by the real NewStore (check, reaper goroutine started), with or
+//                      without an interrupted reap to finish; List / Len / LatestIndexTerm; then the
+//                      first consumer out of Open, EnsureVerify, Verify, Reap, the reaper
+//   VerifC12Order      (symbolic run only) the scenarios of Consumers, Reap and Start once more; the
+//                      models of the file system record events: every data file is checksummed
+//                      before the first one is opened for streaming or a reap plan is made, nothing
+//                      is opened or planned after a bad verdict, a start opens no data file
 //   VerifC12Header     NewChecksummedSnapshotHeader / NewHeaderFromChecksummedFile with symbolic
 //                      recorded checksums
 //
@@ -153,6 +161,7 @@ type vStoreWorld struct {
 	st    *Store
 	died  bool
 
+	reaperRuns bool // the reaper goroutine has been started and not been stopped
 	reaperDied bool // fatalFn ended the process inside the reaper goroutine
 }
 
@@ -463,7 +472,14 @@ func VerifC12Order() {
 	if !verifSymbolic() {
 		return
 	}
-	vScenario(true)
+	switch vChoice("scenario", 3) {
+	case 0:
+		vScenario(true)
+	case 1:
+		vReapScenario(true)
+	case 2:
+		vStartScenario(true)
+	}
 }
 
 // ---------------------------------------------------------------- reap
@@ -531,6 +547,7 @@ const (
 // startReaper starts the reaper goroutine as NewStore does (wg.Go(reapLoop)); a process death
 // inside it (fatalFn) ends the goroutine and is noted.
 func (w *vStoreWorld) startReaper() {
+	w.reaperRuns = true
 	w.st.wg.Go(func() {
 		if vDies(w.st.reapLoop) {
 			w.reaperDied = true
@@ -592,17 +609,19 @@ func vReapVia(w *vStoreWorld, via int) (o vReapOutcome) {
 	default:
 		// the token is in the channel already (left by Sink.Close, or put there below exactly as
 		// Sink.Close does); the reaper finds it as soon as it runs
+		errs0 := vReapErrorCount()
 		if via == vViaReaperSignal {
 			select {
 			case w.st.reapCh <- struct{}{}:
 			default:
 			}
 		}
-		verifAssert("C12-sink-close-signals-the-reaper", len(w.st.reapCh) == 1)
-		errs0 := vReapErrorCount()
-		w.startReaper()
+		if !w.reaperRuns {
+			verifAssert("C12-sink-close-signals-the-reaper", len(w.st.reapCh) == 1)
+			w.startReaper()
+		}
 		verifSettle()
-		vMust(w.st.Close()) // ends the reaper and waits for it
+		w.shutdown() // ends the reaper and waits for it
 		o.died = w.reaperDied
 		o.failed = vReapErrorCount() > errs0
 		select {
@@ -619,7 +638,8 @@ func vReapVia(w *vStoreWorld, via int) (o vReapOutcome) {
 // a reap verifies before it consolidates or removes anything: on a bad verdict, fresh or cached,
 // it fails (or the process ends) and the directory stays exactly as it was. older/newer: the two
 // snapshot directories of which a plain reap (consolidates == false) removes the first.
-func vReapChecked(w *vStoreWorld, r *vRef, via int, consolidates bool, older, newer string) {
+func vReapChecked(w *vStoreWorld, r *vRef, via int, consolidates bool, older, newer string, order bool) {
+	order = order && verifSymbolic()
 	before := vTree(w.dir)
 	j0 := 0
 	if verifSymbolic() {
@@ -647,11 +667,13 @@ func vReapChecked(w *vStoreWorld, r *vRef, via int, consolidates bool, older, ne
 		if via != vViaReap {
 			verifReach("reaper-refused")
 		}
+		// (the directory first: natively the consolidation of the model's stand-ins for SQLite
+		// files fails half-way, which a look at the error alone would take for a refusal)
+		verifAssert("C12-refused-reap-leaves-directory-untouched", vSameStrings(before, vTree(w.dir)))
 		verifAssert("C12-reap-fails-on-bad-verdict", o.died || o.failed)
 		verifAssert("C12-bad-verdict-does-not-survive-fatal-hook", o.died || w.st.fatalFn == nil)
 		verifAssert("C12-refused-reap-completes-nothing", !o.observed && o.n == 0)
-		verifAssert("C12-refused-reap-leaves-directory-untouched", vSameStrings(before, vTree(w.dir)))
-		if verifSymbolic() {
+		if order {
 			for _, e := range vFS.journal[j0:] {
 				verifAssert("C12-refused-reap-makes-no-plan", e != "plan-written" && e != "plan-executed")
 			}
@@ -663,7 +685,7 @@ func vReapChecked(w *vStoreWorld, r *vRef, via int, consolidates bool, older, ne
 	if !consolidates {
 		verifAssert("C12-reap-removes-older-snapshot", o.n == 1 && !vExists(filepath.Join(w.dir, older)) && vExists(filepath.Join(w.dir, newer)))
 	}
-	if verifSymbolic() {
+	if order {
 		// the verification came first
 		planAt, lastCRC := -1, -1
 		for pos, e := range vFS.journal[j0:] {
@@ -720,7 +742,9 @@ func (w *vStoreWorld) forget(r *vRef, dir string) {
 // consolidates or removes anything, see vReapChecked. A reap that finds the plan of an interrupted
 // one only finishes that plan (by design without verifying: the files are in an undefined state
 // until it is finished); it must not count as the store's first use: the next consumer verifies.
-func VerifC12Reap() {
+func VerifC12Reap() { vReapScenario(false) }
+
+func vReapScenario(order bool) {
 	verifPanicsAreViolations()
 	snaps := vReapSnapsPlain
 	chain := vChoice("chain", 2) == 1
@@ -734,7 +758,11 @@ func VerifC12Reap() {
 		w.st.fatalFn = func(error) { panic(vErrFatal) }
 	}
 	nStart := len(w.files)
-	f := vChoice("atStart", 1+nStart)
+	nOpts := 1 + nStart
+	if verifTier() == 1 {
+		nOpts += nStart // also: altered and marked "not checksummed"
+	}
+	f := vChoice("atStart", nOpts)
 	if via == vViaReaperSink {
 		// the node has been running: one more snapshot was taken (before or after the first use,
 		// see below); the reaper's threshold is reached with it
@@ -743,21 +771,35 @@ func VerifC12Reap() {
 		w.st.SetReapThreshold(len(snaps))
 	}
 	r := &vRef{altered: make([]bool, nStart+1), disabled: make([]bool, nStart+1)}
-	if f > 0 {
+	if f > nStart {
+		i := f - 1 - nStart
+		vAlter(w.files[i])
+		vWriteDisabledSidecar(w.files[i])
+		r.altered[i], r.disabled[i] = true, true
+	} else if f > 0 {
 		vAlter(w.files[f-1])
 		r.altered[f-1] = true
 	}
 	// optionally the store has been used before (verdict cached), and things change afterwards
-	usedBefore := vChoice("usedBefore", 2) == 1
+	nBefore := 2
+	if chain && verifTier() == 1 {
+		nBefore = 3 // also: a snapshot has been opened (and closed) before
+	}
+	ub := vChoice("usedBefore", nBefore)
+	usedBefore := ub > 0
 	if usedBefore {
-		vConsume(w, r, vUseEnsureVerify, false)
+		if ub == 2 {
+			vConsume(w, r, vUseOpenNew, false)
+		} else {
+			vConsume(w, r, vUseEnsureVerify, false)
+		}
 		if w.died {
 			return
 		}
 		switch a := vChoice("between", 3); a {
 		case 1:
 			for i, f := range w.files {
-				if r.altered[i] {
+				if r.altered[i] && !r.disabled[i] {
 					vRepair(f)
 					r.altered[i] = false
 				}
@@ -784,10 +826,90 @@ func VerifC12Reap() {
 		w.forget(r, older)
 		// the store's data has not been verified by that: whoever uses it next does it
 		verifAssert("C12-resumed-reap-is-not-a-verdict", r.verdict == 0)
-		vConsume(w, r, vUseEnsureVerify, true)
+		vConsume(w, r, vUseEnsureVerify, order)
 		return
 	}
-	vReapChecked(w, r, via, chain || via == vViaReaperSink, snaps[0].id, snaps[1].id)
+	vReapChecked(w, r, via, chain || via == vViaReaperSink, snaps[0].id, snaps[1].id, order)
+}
+
+// ---------------------------------------------------------------- node start
+
+// VerifC12Start: the store is built by the real NewStore (Store.check, then the reaper goroutine
+// is started) over a directory one file of which may have been altered while the node was down,
+// optionally with the plan of an interrupted reap lying there (check finishes it, by design without
+// verifying). Nothing of that, nor the questions store.(*Store).Open asks next (List, Len,
+// LatestIndexTerm), reads a data file or counts as the first use: whichever consumer comes first
+// - Open, EnsureVerify, Verify, Reap, the reaper - verifies every data file before anything else.
+func VerifC12Start() { vStartScenario(false) }
+
+func vStartScenario(order bool) {
+	verifPanicsAreViolations()
+	w := vNewStoreWorld(vStoreSnaps)
+	defer w.drop()
+	r := &vRef{altered: make([]bool, len(w.files)), disabled: make([]bool, len(w.files))}
+	if f := vChoice("atStart", 1+len(w.files)); f > 0 {
+		vAlter(w.files[f-1])
+		r.altered[f-1] = true
+	}
+	stale := filepath.Join(w.dir, "1-5-50")
+	interrupted := vChoice("interrupted", 2) == 1
+	if interrupted {
+		// a reap had consolidated everything up to 1-10-100; it died before it removed 1-5-50
+		vPutSnapshot(w.dir, vSnap{id: "1-5-50", full: true, term: 1, index: 5})
+		w.leavePlan(stale)
+	}
+	j0 := 0
+	if verifSymbolic() {
+		j0 = len(vFS.journal)
+	}
+	st, err := NewStore(w.dir)
+	verifAssert("C12-store-starts", err == nil && st != nil)
+	w.st, w.reaperRuns = st, true
+	defer w.shutdown()
+	st.fatalFn = nil
+	st.SetReapThreshold(len(w.snaps))
+	if interrupted {
+		verifReach("start-resumed")
+		verifAssert("C12-start-finishes-the-interrupted-reap", !vExists(stale) && !vExists(filepath.Join(w.dir, reapPlanFile)))
+	}
+	metas, err := st.List()
+	verifAssert("C12-start-lists-newest", err == nil && len(metas) == 1 && metas[0].ID == w.snaps[1].id)
+	verifAssert("C12-start-counts", st.Len() == len(w.snaps))
+	li, lt, err := st.LatestIndexTerm()
+	verifAssert("C12-start-latest", err == nil && li == w.snaps[1].index && lt == w.snaps[1].term)
+	if order && verifSymbolic() {
+		for _, e := range vFS.journal[j0:] {
+			for _, f := range w.files {
+				verifAssert("C12-start-opens-no-data-file", e != "open "+f)
+			}
+		}
+	}
+	verifAssert("C12-start-is-not-a-verdict", r.verdict == 0)
+	// the first consumer
+	switch c := vChoice("first", 6); c {
+	case 0:
+		vConsume(w, r, vUseOpenNew, order)
+	case 1:
+		vConsume(w, r, vUseEnsureVerify, order)
+	case 2:
+		vConsume(w, r, vUseVerify, order)
+	case 3:
+		// production: a bad verdict ends the process (the caller's goroutine here)
+		st.fatalFn = func(error) { panic(vErrFatal) }
+		vConsume(w, r, vUseOpenOld, order)
+	case 4:
+		vReapChecked(w, r, vViaReap, true, "", "", order)
+	case 5:
+		vReapChecked(w, r, vViaReaperSignal, true, "", "", order)
+	}
+}
+
+// shutdown ends the reaper goroutine, if it runs.
+func (w *vStoreWorld) shutdown() {
+	if w.reaperRuns {
+		w.reaperRuns = false
+		vMust(w.st.Close())
+	}
 }
 
 // vTree lists every path below dir (sorted walk).
